@@ -9,6 +9,6 @@ CONSTANTS
   PutEarly = FALSE
   PoolOps = {"slot_selection", "sync_root"}
   PoolKinds = {"plain", "plain_dist"}
-INVARIANTS TypeOK DomainRight Memoryless HandedOwn SigCorrect NoSignatureWithoutDomain ErrorHasNoSignatures
+INVARIANTS TypeOK DomainRight Memoryless HandedOwn SigCorrect NoSignatureWithoutDomain ErrorHasNoSignatures RefusedForCause
 PROPERTIES ReplyStable
 CHECK_DEADLOCK FALSE
